@@ -338,8 +338,13 @@ func YieldAlways(site string) {
 
 func (w *World) park(site string) { w.parkAs(site, false) }
 
-func (w *World) parkAs(site string, wake bool) {
-	p := &parked{site: site, ch: make(chan int), wake: wake}
+func (w *World) parkAs(site string, wake bool) { w.parkAsKey(site, wake, 0) }
+
+// parkAsKey: key != 0 is this arrival's rank among arrivals at the same site in the same batch (used
+// instead of the goroutine id: callbacks of timers due at the very same nanosecond get their
+// goroutines — and ids — in an order the runtime chooses; the order in which they were armed is ours)
+func (w *World) parkAsKey(site string, wake bool, key uint64) {
+	p := &parked{site: site, ch: make(chan int), wake: wake, goid: key}
 	w.mu.Lock()
 	w.pseq++
 	p.seq = w.pseq
@@ -966,7 +971,16 @@ func (w *World) HarnessJitter(parts ...any) time.Duration {
 const MaxJitter = time.Microsecond
 
 func AfterFunc(d time.Duration, f func()) *time.Timer {
-	t := time.AfterFunc(d+jitter("af"), func() { Resume("simrt:timer-fired"); f() })
+	var rank uint64
+	if w := cur.Load(); w != nil {
+		rank = uint64(w.Counter("af-armed")) + 1
+	}
+	t := time.AfterFunc(d+jitter("af"), func() {
+		if w := cur.Load(); w != nil && !w.draining.Load() && !w.isDriver() {
+			w.parkAsKey("simrt:timer-fired", true, rank)
+		}
+		f()
+	})
 	YieldAlways("simrt:timer-armed")
 	return t
 }
